@@ -316,10 +316,11 @@ def build(desc, transcribe=True, solver=True, extra_phys=False, stage_factory=No
                 return sym_ph(kind, i)
             A = ca.vertcat(*[E.to_casadi(e, sym_con) for e in con['a']])
             B = ca.vertcat(*[E.to_casadi(e, sym_con) for e in con['b']])
+            sp = con.get('spelling')     # the same relation written another way: strict operator and/or operands swapped
             if con['rel'] == 'le':
-                ce = A <= B
+                ce = {None: lambda: A <= B, 'strict': lambda: A < B, 'flipped': lambda: B >= A, 'flipped_strict': lambda: B > A}[sp]()
             elif con['rel'] == 'ge':
-                ce = A >= B
+                ce = {None: lambda: A >= B, 'strict': lambda: A > B, 'flipped': lambda: B <= A, 'flipped_strict': lambda: B < A}[sp]()
             elif con['rel'] == 'eq':
                 ce = A == B
             elif con['rel'] == 'two':
